@@ -187,3 +187,78 @@ Definition run_export_w2 (mout min : list bool) (w : list (list Z)) := @export_w
 Definition run_hp (dw frozen has_bn fold : bool) (K d0 : nat) (beta gamma : list Q) (mout min : list bool) :=
   let h := export_conv1d_hp dw frozen has_bn fold K d0 beta gamma mout min in
   (hp_in h, hp_out h, hp_k h, (hp_dil h, hp_groups h, hp_pad h, hp_bn h), time_mask_of frozen K beta gamma).
+
+(* ---------------------------------------------------------------- whole networks on integer tensors (BN-free), executable:
+   one pass computes, for every node, the tensor of the masked (PIT, eval mode) network, the tensor of the exported
+   network and the alive mask.  Derived quantities of the export (sliced weights, K', d', new pad amount, input masks)
+   are all computed by the model functions above. *)
+Inductive tens := TS1 (x : list (list Z)) | TS2 (x : list (list (list Z))) | TS0 (x : list Z) | TErr.
+Inductive xnode :=
+| XIn
+| XPad (src P P' : nat)                              (* ConstantPad1d((P,0)); P' = amount after export *)
+| XConv1 (src : nat) (fold dw : bool) (w : list (list (list Z))) (b : option (list Z)) (cin K d s : nat) (m tm : list bool) (K' d' : nat)
+| XConv2 (src : nat) (fold dw : bool) (w : list (list (list (list Z)))) (b : option (list Z)) (cin kh kw d s ph pw : nat) (m : list bool)
+| XLin (src : nat) (fold : bool) (w : list (list Z)) (b : option (list Z)) (cin : nat) (m : list bool)
+| XAct (src : nat) (six : bool) | XId (src : nat) | XMaxPool (src k : nat) | XFlatten (src : nat)
+| XAdd (a b : nat) | XCat (srcs : list nat).
+
+Definition pit_conv1d_l (fold dw : bool) w b cin K d s (m tm : list bool) (x : list (list Z)) : list (list Z) :=
+  map (fun co => map (fun t => pit_conv1d_at 0 1 Z.add Z.mul true fold dw w b None cin K (Z.of_nat d) (Z.of_nat s) m tm (chans1 0 x) co (Z.of_nat t))
+                     (seq 0 (out_len (length (nth 0 x [])) K d s))) (seq 0 (length w)).
+Definition pit_conv2d_l (fold dw : bool) w b cin kh kw d s ph pw (m : list bool) (x : list (list (list Z))) : list (list (list Z)) :=
+  let H := length (nth 0 x []) in let W := length (nth 0 (nth 0 x []) []) in
+  map (fun co => map (fun h => map (fun v => pit_conv2d_at 0 1 Z.add Z.mul true fold dw w b None cin kh kw (Z.of_nat d) (Z.of_nat s) (Z.of_nat ph) (Z.of_nat pw) m (chans2 0 x) co (Z.of_nat h) (Z.of_nat v))
+                                   (seq 0 (out_len_p W kw d s pw))) (seq 0 (out_len_p H kh d s ph))) (seq 0 (length w)).
+Definition pit_linear_l (fold : bool) w b cin (m : list bool) (x : list Z) : list Z :=
+  map (fun co => pit_linear_at 0 1 Z.add Z.mul true fold w b None cin m (fun ci => nth ci x 0) co) (seq 0 (length w)).
+
+Definition tmap (f1 : list Z -> list Z) (f2 : list (list Z) -> list (list Z)) (f0 : Z -> Z) (t : tens) : tens :=
+  match t with TS1 x => TS1 (map f1 x) | TS2 x => TS2 (map f2 x) | TS0 x => TS0 (map f0 x) | TErr => TErr end.
+Fixpoint zip2 {A} (f : A -> A -> A) (a b : list A) : list A :=
+  match a, b with x :: a', y :: b' => f x y :: zip2 f a' b' | _, _ => [] end.
+Definition tadd (a b : tens) : tens :=
+  match a, b with
+  | TS1 x, TS1 y => TS1 (zip2 (zip2 Z.add) x y)
+  | TS2 x, TS2 y => TS2 (zip2 (zip2 (zip2 Z.add)) x y)
+  | TS0 x, TS0 y => TS0 (zip2 Z.add x y)
+  | _, _ => TErr
+  end.
+Definition tcat (a b : tens) : tens :=
+  match a, b with TS1 x, TS1 y => TS1 (x ++ y) | TS2 x, TS2 y => TS2 (x ++ y) | TS0 x, TS0 y => TS0 (x ++ y) | _, _ => TErr end.
+Definition tflat (t : tens) : tens :=
+  match t with TS1 x => TS0 (concat x) | TS2 x => TS0 (concat (map (@concat Z) x)) | TS0 x => TS0 x | TErr => TErr end.
+Definition tmult (t : tens) : nat :=
+  match t with TS1 x => length (nth 0 x []) | TS2 x => length (nth 0 x []) * length (nth 0 (nth 0 x []) []) | _ => 1 end.
+Definition tchan (t : tens) : nat := match t with TS1 x => length x | TS2 x => length x | TS0 x => length x | TErr => 0 end.
+
+Definition xstate := (tens * tens * list bool)%type.
+Definition xget (acc : list xstate) (i : nat) : xstate := nth i acc (TErr, TErr, []).
+Definition xstep (x : tens) (acc : list xstate) (nd : xnode) : xstate :=
+  match nd with
+  | XIn => (x, x, all_true (tchan x))
+  | XPad src P P' => let '(p, e, a) := xget acc src in
+      (match p with TS1 v => TS1 (Zpad1d P v) | _ => TErr end, match e with TS1 v => TS1 (Zpad1d P' v) | _ => TErr end, a)
+  | XConv1 src fold dw w b cin K d s m tm K' d' => let '(p, e, a) := xget acc src in
+      (match p with TS1 v => TS1 (pit_conv1d_l fold dw w b cin K d s m tm v) | _ => TErr end,
+       match e with TS1 v => TS1 (Zconv1d dw (export_w3 dw m a tm w) (export_bias m b) (count_true a) K' d' s v) | _ => TErr end, m)
+  | XConv2 src fold dw w b cin kh kw d s ph pw m => let '(p, e, a) := xget acc src in
+      (match p with TS2 v => TS2 (pit_conv2d_l fold dw w b cin kh kw d s ph pw m v) | _ => TErr end,
+       match e with TS2 v => TS2 (Zconv2d dw (export_w4 dw m a w) (export_bias m b) (count_true a) kh kw d s ph pw v) | _ => TErr end, m)
+  | XLin src fold w b cin m => let '(p, e, a) := xget acc src in
+      (match p with TS0 v => TS0 (pit_linear_l fold w b cin m v) | _ => TErr end,
+       match e with TS0 v => TS0 (Zlinear (export_w2 m a w) (export_bias m b) (count_true a) v) | _ => TErr end, m)
+  | XAct src six => let '(p, e, a) := xget acc src in
+      let f := if six then relu6 else relu in (tmap (map f) (map (map f)) f p, tmap (map f) (map (map f)) f e, a)
+  | XId src => xget acc src
+  | XMaxPool src k => let '(p, e, a) := xget acc src in
+      (tmap (maxpool1d k) (maxpool2d k) (fun v => v) p, tmap (maxpool1d k) (maxpool2d k) (fun v => v) e, a)
+  | XFlatten src => let '(p, e, a) := xget acc src in (tflat p, tflat e, flat_map (fun b => repeat b (tmult p)) a)
+  | XAdd i j => let '(p, e, a) := xget acc i in let '(p2, e2, _) := xget acc j in (tadd p p2, tadd e e2, a)
+  | XCat srcs => match srcs with
+      | [] => (TErr, TErr, [])
+      | s0 :: rest => fold_left (fun st j => let '(p, e, a) := st in let '(p2, e2, a2) := xget acc j in (tcat p p2, tcat e e2, a ++ a2)) rest (xget acc s0)
+      end
+  end.
+Fixpoint xrun (x : tens) (acc : list xstate) (net : list xnode) : list xstate :=
+  match net with [] => acc | nd :: rest => xrun x (acc ++ [xstep x acc nd]) rest end.
+Definition run_net (net : list xnode) (x : tens) : list xstate := xrun x [] net.
